@@ -285,9 +285,21 @@ impl C16 {
                     }
                 }
             }
+            // in the runs that have other connections (§3.9), somebody else's calls come in
+            // between the four replicas' calls
+            let others = sc.recycled.is_some() || !sc.neighbors.is_empty();
+            let between = |st: &mut Stats| {
+                if others {
+                    crate::recv::perturb();
+                    st.hit("fault:calls_for_others_between_parses");
+                }
+            };
             let text = guard(|| v1::Header::try_from(s));
+            between(st);
             let bytes = guard(|| v1::Header::try_from(s.as_bytes()));
+            between(st);
             let fh = guard(|| s.parse::<v1::Header<'static>>());
+            between(st);
             let fa = guard(|| s.parse::<v1::Addresses>());
             st.log(
                 "state",
